@@ -200,6 +200,10 @@ type c30Script struct {
 	Flavor   string    `json:"flavor"`   // random: guarded (only steps allowed by the guard of C30_partial) | claimless (no deactivation threads) | overlap (no claim-less step)
 	FailPct  int       `json:"fail_pct"` // random: probability (percent) of an injected failure at a step
 	Steps    []c30Step `json:"steps"`
+	// mode "pair": a victim flight on node 0 whose lead steps listed in Fails fail; before its InsertAt-th lead step a
+	// competitor flight on node 1 runs from start to finish; afterwards full flights on node 2 and again on node 0
+	Fails    []int `json:"fails"`
+	InsertAt int   `json:"insert_at"`
 }
 
 type c30Trace struct {
@@ -444,7 +448,43 @@ func c30RunScript(t testing.TB, w *c30World, sc c30Script, idx int) c30Trace {
 		tr.Obs = append(tr.Obs, run.observe())
 		return true
 	}
-	if sc.Mode == "random" {
+	if sc.Mode == "pair" {
+		flight := func(n int) bool {
+			if !do(c30Step{A: "start", N: n}) {
+				return false
+			}
+			for k := 0; k < 12 && run.leaderBusy(n); k++ {
+				if !do(c30Step{A: "lead", N: n, OK: true}) {
+					return false
+				}
+			}
+			return true
+		}
+		fails := map[int]bool{}
+		for _, f := range sc.Fails {
+			fails[f] = true
+		}
+		okAll := do(c30Step{A: "start", N: 0})
+		inserted := false
+		for k := 0; okAll && k < 14 && run.leaderBusy(0); k++ {
+			if k == sc.InsertAt {
+				inserted = true
+				if okAll = flight(1); !okAll {
+					break
+				}
+			}
+			okAll = do(c30Step{A: "lead", N: 0, OK: !fails[k]})
+		}
+		if okAll && !inserted {
+			okAll = flight(1)
+		}
+		if okAll {
+			okAll = flight(2)
+		}
+		if okAll {
+			flight(0)
+		}
+	} else if sc.Mode == "random" {
 		rng := newVerifRNG(sc.Seed)
 		for i := 0; i < sc.MaxSteps; i++ {
 			en := run.enabled(rng, sc.Flavor, sc.FailPct)
@@ -599,4 +639,123 @@ func TestVerifC30Stress(t *testing.T) {
 	res.Acts, res.Deacts = c30Track.acts, c30Track.deacts
 	c30Track.mu.Unlock()
 	out.put(res)
+}
+
+
+// ---------------------------------------------------------------- the single-flight contract
+
+type c30FlightOut struct {
+	Fails       []int    `json:"fails"`
+	ProbeAt     int      `json:"probe_at"`
+	ProbeHook   string   `json:"probe_hook"`   // what the first flight was about to do when the second caller arrived
+	Independent bool     `json:"independent"`  // the second caller ran an activation of its own while the first flight was in progress
+	MaxLive     int      `json:"max_live"`
+	MaxOn       []int    `json:"max_on"`
+	Unnamed     string   `json:"unnamed"`      // at the end: a node holding a live instance that the registry does not name
+	Notes       []string `json:"notes"`
+	Ops         []vregOp `json:"ops"`
+}
+
+// TestVerifC30Flight checks the contract the model takes from runGrainActivation: on one node at most one activation
+// flight per identity is in progress — from the lookup to the end of every rollback. While a flight on node 0 stands at
+// each of its scheduling points (with failures injected so that the rollback paths are reached too) a second caller
+// arrives on the same node: it must wait for the flight. Afterwards another node addresses the identity.
+func TestVerifC30Flight(t *testing.T) {
+	out := newVerifWriter(t, "c30_flight.jsonl")
+	defer out.close()
+	w := newC30World(t, 3)
+	defer w.close()
+	idx := 0
+	ensure := func(sys *actorSystem, id *GrainIdentity) func(ctx context.Context) string {
+		return func(ctx context.Context) string {
+			if _, err := sys.ensureGrainProcess(ctx, id); err != nil {
+				return "err"
+			}
+			return "ok"
+		}
+	}
+	for _, fails := range [][]int{{}, {2}, {3}, {3, 4}, {3, 5}} {
+		for probeAt := 1; probeAt <= 6; probeAt++ {
+			idx++
+			name := fmt.Sprintf("f%d", idx)
+			id := newGrainIdentity(&C30Grain{}, name)
+			res := c30FlightOut{Fails: fails, ProbeAt: probeAt}
+			failAt := map[int]bool{}
+			for _, f := range fails {
+				failAt[f] = true
+			}
+			w.reg.mu.Lock()
+			w.reg.log = nil
+			w.reg.logOn = true
+			w.reg.mu.Unlock()
+			a := newVregThread(0)
+			a.spawn(ensure(w.sys[0], id))
+			ev, ok := a.tryAdvance(true, 10*time.Second)
+			k := 0
+			for ok && !ev.Finished && k < probeAt {
+				ev, ok = a.tryAdvance(!failAt[k], 10*time.Second)
+				k++
+			}
+			if !ok || ev.Finished {
+				continue // the flight is shorter than probeAt: nothing to probe
+			}
+			res.ProbeHook = ev.Blocked
+			// the second caller on the same node
+			b := newVregThread(0)
+			b.spawn(ensure(w.sys[0], id))
+			bev, reached := b.tryAdvance(true, 700*time.Millisecond)
+			if reached && !bev.Finished {
+				res.Independent = true
+				for j := 0; j < 12 && !bev.Finished; j++ {
+					var ok2 bool
+					if bev, ok2 = b.tryAdvance(true, 10*time.Second); !ok2 {
+						break
+					}
+				}
+			}
+			// the first flight goes on to its end
+			for j := 0; j < 12 && !ev.Finished; j++ {
+				var ok2 bool
+				if ev, ok2 = a.tryAdvance(!failAt[k], 10*time.Second); !ok2 {
+					break
+				}
+				k++
+			}
+			if !bev.Finished {
+				if e2, ok2 := b.await(10 * time.Second); ok2 {
+					bev = e2
+					for j := 0; j < 12 && !bev.Finished; j++ {
+						res.Independent = true // it was only slow to get going: it runs a flight of its own after all
+						if bev, ok2 = b.tryAdvance(true, 10*time.Second); !ok2 {
+							break
+						}
+					}
+				}
+			}
+			res.Notes = append(res.Notes, "first flight: "+ev.Result+", second caller: "+bev.Result)
+			// another node addresses the identity
+			c := newVregThread(1)
+			c.spawn(ensure(w.sys[1], id))
+			cev, okc := c.tryAdvance(true, 10*time.Second)
+			for j := 0; okc && j < 12 && !cev.Finished; j++ {
+				cev, okc = c.tryAdvance(true, 10*time.Second)
+			}
+			res.Notes = append(res.Notes, "other node: "+cev.Result)
+			c30Track.mu.Lock()
+			res.MaxLive = c30Track.maxLive[name]
+			res.MaxOn = append([]int(nil), c30Track.maxNode[name]...)
+			c30Track.mu.Unlock()
+			owner := w.reg.grainOwner(id.String())
+			for n := range w.sys {
+				if c30Track.liveOn(name, n) > 0 && owner != n {
+					res.Unnamed = fmt.Sprintf("node %d holds a live instance, the registry names %d", n, owner)
+				}
+			}
+			w.reg.mu.Lock()
+			res.Ops = append([]vregOp(nil), w.reg.log...)
+			w.reg.logOn = false
+			w.reg.mu.Unlock()
+			out.put(res)
+		}
+	}
 }
